@@ -751,15 +751,131 @@ Proof.
 Qed.
 
 (* ============================ the on-disk round trip ============================ *)
-(* domain of the round-trip theorem: values as the fields store them; an unset (None) TYPED container comes back
+(* ============================ typed dicts: the on-disk round trip ============================ *)
+(* keys pairwise different for Python's == on the modelled key types, all of them hashable scalars *)
+Fixpoint distinct_keys (l : list (pyval * pyval)) : Prop :=
+  match l with
+  | [] => True
+  | kv :: r => key_ok (fst kv) = true /\
+               Forall (fun kv' => key_eqb (fst kv') (fst kv) = false) r /\ distinct_keys r
+  end.
+
+Lemma assoc_set_fresh : forall k v acc,
+  Forall (fun kv' => key_eqb k (fst kv') = false) acc -> @assoc_set pyval pyval key_eqb k v acc = acc ++ [(k, v)].
+Proof.
+  intros k v acc H. induction H as [|[k' v'] acc Hk H IH]; cbn; [reflexivity|].
+  cbn in Hk. rewrite Hk. now f_equal.
+Qed.
+
+Lemma dict_build_acc_distinct : forall l acc,
+  distinct_keys l -> Forall (fun kv => Forall (fun kv' => key_eqb (fst kv) (fst kv') = false) acc) l ->
+  dict_build_acc acc l = Ok (acc ++ l).
+Proof.
+  induction l as [|[k v] l IH]; intros acc Hd Ha; cbn.
+  - now rewrite app_nil_r.
+  - destruct Hd as (Hk & Hr & Hd). cbn in Hk. rewrite Hk. inversion Ha as [|? ? Hka Ha']; subst. cbn in Hka.
+    rewrite (assoc_set_fresh k v acc Hka). rewrite IH; [now rewrite <- app_assoc| exact Hd |].
+    clear IH Hd Ha Hka Hk. induction Ha' as [|kv' l Hx Ha' IHa]; constructor.
+    + apply Forall_app; split; [exact Hx|]. constructor; [|constructor]. cbn. inversion Hr; subst. assumption.
+    + apply IHa. inversion Hr; subst. assumption.
+Qed.
+
+Lemma dict_build_distinct : forall l, distinct_keys l -> dict_build l = Ok l.
+Proof.
+  intros l H. unfold dict_build. rewrite dict_build_acc_distinct; [reflexivity|exact H|].
+  clear H. induction l; constructor; [constructor|assumption].
+Qed.
+
+Lemma distinct_keys_fst : forall l l', map fst l = map fst l' -> distinct_keys l -> distinct_keys l'.
+Proof.
+  induction l as [|kv l IH]; intros [|kv' l'] E H; cbn in *; try discriminate; try exact I.
+  injection E as E1 E2. destruct H as (A & B & C). rewrite <- E1. split; [exact A|]. split; [|now apply IH].
+  clear -B E2. revert l' E2. induction B as [|x l Hx B IHB]; intros [|y l'] E2; try discriminate; constructor.
+  - cbn in E2. injection E2 as E3 E4. now rewrite <- E3.
+  - cbn in E2. injection E2 as E3 E4. now apply IHB.
+Qed.
+
+(* key fields whose values are hashable scalars the model compares *)
+Definition scalar_kf (kf : field) : bool :=
+  match kf with
+  | FAny _ | FStr _ _ | FInt _ _ _ | FBool _ | FIPv4 _ _ | FNet _ _ _ _ | FHost _ _ _ _ | FBytes _ _ => true
+  | _ => false
+  end.
+Definition kb_of (kf : field) (k : pyval) : pyval :=
+  match kf, k with
+  | FBytes _ enc, PBytes b => PStr (match enc with B64 => b64_enc b | BHex => hex_enc b end)
+  | _, _ => k
+  end.
+
+Lemma bytes_eqb_eq : forall a b : bytes, bytes_eqb a b = true <-> a = b.
+Proof. exact str_eqb_eq. Qed.
+
+Lemma key_rt : forall orc kf k, scalar_kf kf = true -> normal orc kf k -> key_ok k = true ->
+  to_basic kf k = Ok (kb_of kf k) /\ to_python_with orc kf (kb_of kf k) = Ok k /\ key_ok (kb_of kf k) = true.
+Proof.
+  intros orc kf k Hs Hn Hk. destruct kf; try discriminate; try (cbn; auto; fail).
+  unfold normal in Hn. cbn [sat] in Hn. destruct Hn as [[-> _]|[b [-> Hb]]]; [cbn; auto|].
+  cbn. destruct enc.
+  - now rewrite (b64_decode_py_enc b Hb).
+  - now rewrite (hex_dec_enc b Hb).
+Qed.
+
+Lemma key_eqb_kb : forall orc kf k1 k2, scalar_kf kf = true -> normal orc kf k1 -> normal orc kf k2 ->
+  key_ok k1 = true -> key_ok k2 = true -> key_eqb (kb_of kf k1) (kb_of kf k2) = key_eqb k1 k2.
+Proof.
+  intros orc kf k1 k2 Hs H1 H2 K1 K2. destruct kf; try discriminate; try reflexivity.
+  unfold normal in H1, H2. cbn [sat] in H1, H2.
+  destruct H1 as [[-> _]|[b1 [-> B1]]], H2 as [[-> _]|[b2 [-> B2]]]; try reflexivity.
+  cbn. destruct (bytes_eqb b1 b2) eqn:E.
+  - apply bytes_eqb_eq in E. subst. apply str_eqb_refl.
+  - destruct (str_eqb _ _) eqn:E2; [|reflexivity]. apply str_eqb_eq in E2. exfalso.
+    assert (b1 = b2) by (destruct enc; [eapply b64_enc_inj|eapply hex_enc_inj]; eassumption).
+    subst. assert (bytes_eqb b2 b2 = true) by (now apply bytes_eqb_eq). congruence.
+Qed.
+
+Lemma distinct_keys_kb : forall orc kf l l', scalar_kf kf = true ->
+  map fst l' = map (kb_of kf) (map fst l) -> Forall (fun kv => normal orc kf (fst kv)) l ->
+  distinct_keys l -> distinct_keys l'.
+Proof.
+  intros orc kf l l' Hs. revert l'. induction l as [|[k x] l IH]; intros [|[k' x'] l'] E Hn Hd; cbn in *; try discriminate; try exact I.
+  injection E as E1 E2. inversion Hn as [|? ? Hk Hn']; subst. cbn in Hk. destruct Hd as (A & B & C).
+  assert (Hall : forall kv, In kv l -> key_ok (fst kv) = true).
+  { clear -C. induction l as [|kv l IHl]; intros kv' []; subst; destruct C as (A & B & C); auto. }
+  split; [now destruct (key_rt orc kf k Hs Hk A) as (_ & _ & ?)|]. split; [|now apply IH].
+  clear IH C. revert l' E2. induction l as [|[k2 x2] l IHl]; intros [|[k2' x2'] l'] E2; cbn in *; try discriminate; constructor.
+  - injection E2 as E3 E4. subst k2'. cbn. inversion B; inversion Hn'; subst. cbn in *.
+    rewrite (key_eqb_kb orc kf k2 k Hs); auto; apply (Hall (k2, x2)); now left.
+  - injection E2 as E3 E4. inversion B; inversion Hn'; subst. apply IHl; auto; intros kv Hin; apply Hall; now right.
+Qed.
+
+Lemma roundtrip_pairs : forall orc kf (tbv tpv vav : pyval -> res pyval) d, scalar_kf kf = true ->
+  Forall (fun kv => normal orc kf (fst kv) /\ key_ok (fst kv) = true /\
+                    exists b p, tbv (snd kv) = Ok b /\ tpv b = Ok p /\ vav p = Ok (snd kv)) d ->
+  exists db dp, map_res (on_pair (to_basic kf) tbv) d = Ok db /\
+                map_res (on_pair (to_python_with orc kf) tpv) db = Ok dp /\
+                map_res (on_pair (validate_with orc kf) vav) dp = Ok d /\
+                map fst db = map (kb_of kf) (map fst d) /\ map fst dp = map fst d.
+Proof.
+  intros orc kf tbv tpv vav d Hs H. induction H as [|[k x] d (Hn & Hk & b & p & A & B & C) H (db & dp & IA & IB & IC & ID & IE)].
+  - exists [], []. repeat split.
+  - cbn in Hn, Hk, A, C. destruct (key_rt orc kf k Hs Hn Hk) as (K1 & K2 & K3).
+    exists ((kb_of kf k, b) :: db), ((k, p) :: dp). cbn.
+    rewrite K1. cbn. rewrite A. cbn. rewrite IA. cbn. rewrite K2. cbn. rewrite B. cbn. rewrite IB. cbn.
+    rewrite (validate_fixpoint orc kf k Hn). cbn. rewrite C. cbn. rewrite IC. cbn. rewrite ID, IE. repeat split.
+Qed.
+
+(* domain of the round-trip theorem: values as the fields store them.  An unset (None) TYPED container comes back
    empty (property C02 allows exactly that), so typed-container positions hold a container; untyped containers are
-   builtin lists/dicts; typed dict fields are not covered by this theorem (see basic_roundtrip_partial) *)
+   builtin lists/dicts; the keys of a typed dict are pairwise different hashable scalars (true of every Python dict
+   over the modelled key types) and its key field is a scalar field *)
 Fixpoint rt_dom (f : field) (v : pyval) {struct f} : Prop :=
   match f with
   | FListU _ => v = PNone \/ exists l, v = PList 0%N l
   | FDictU _ => v = PNone \/ exists d, v = PDict 0%N d
   | FListT _ _ it => exists t l, v = PList t l /\ Forall (rt_dom it) l
-  | FDictT _ _ _ _ | FOpaque _ _ => False
+  | FDictT _ _ kf vf => exists t d, v = PDict t d /\ scalar_kf kf = true /\ distinct_keys d /\
+                                   Forall (fun kv => rt_dom vf (snd kv)) d
+  | FOpaque _ _ => False
   | _ => True
   end.
 
@@ -772,7 +888,7 @@ Proof.
   - exists (b :: lb), (p :: lp). cbn. rewrite A, IA, B, IB, C, IC. repeat split.
 Qed.
 
-Theorem basic_roundtrip_partial : forall orc f v,
+Theorem basic_roundtrip : forall orc f v,
   normal orc f v -> rt_dom f v ->
   exists b p, to_basic f v = Ok b /\ to_python_with orc f b = Ok p /\ validate_with orc f p = Ok v.
 Proof.
@@ -801,7 +917,25 @@ Proof.
   - (* FDictU *) cbn in Hd. destruct Hd as [->|[d ->]].
     + exists PNone, PNone. repeat split. exact Hfix.
     + exists (PDict 0%N d), (PDict 0%N d). repeat split. exact Hfix.
-  - contradiction.
+  - (* FDictT *) cbn [rt_dom] in Hd. destruct Hd as [t [d [-> (Hs & Hdk & Hdv)]]].
+    unfold normal in Hn. cbn [sat] in Hn. destruct Hn as [[Hv _]|[d0 [Hv [Hi Hr]]]]; [discriminate Hv|].
+    injection Hv as -> <-.
+    assert (Hall : Forall (fun kv => normal orc f1 (fst kv) /\ key_ok (fst kv) = true /\
+                     exists b p, to_basic f2 (snd kv) = Ok b /\ to_python_with orc f2 b = Ok p /\
+                                 validate_with orc f2 p = Ok (snd kv)) d).
+    { clear Hr Hfix. induction d as [|kv d IHd]; constructor.
+      - inversion Hi as [|? ? [Hk Hx] Hi']; inversion Hdv; subst. destruct Hdk as (A & _ & _).
+        split; [exact Hk|]. split; [exact A|]. now apply IHf2.
+      - inversion Hi; inversion Hdv; subst. destruct Hdk as (_ & _ & C). now apply IHd. }
+    destruct (roundtrip_pairs orc f1 _ _ _ d Hs Hall) as (db & dp & A & B & C & D & E).
+    assert (Hnk : Forall (fun kv => normal orc f1 (fst kv)) d).
+    { clear -Hi. induction Hi as [|kv d [Hk _] Hi IH]; constructor; assumption. }
+    assert (Ddb : distinct_keys db) by (eapply distinct_keys_kb; eauto).
+    assert (Ddp : distinct_keys dp) by (eapply distinct_keys_fst; [symmetry; exact E|exact Hdk]).
+    exists (PDict 0%N db), (PDict (fid + 1)%N d). cbn [to_basic to_python_with]. rewrite A. cbn [bind].
+    rewrite (dict_build_distinct db Ddb). cbn [bind]. split; [reflexivity|].
+    rewrite B. cbn [bind]. rewrite (dict_build_distinct dp Ddp). cbn [bind]. rewrite C. cbn [bind].
+    rewrite (dict_build_distinct d Hdk). cbn [bind]. split; [reflexivity|exact Hfix].
   - contradiction.
 Qed.
 
@@ -812,3 +946,22 @@ Lemma unset_typed_container_roundtrip : forall orc fid req it kf vf,
   to_basic (FDictT fid req kf vf) PNone = Ok PNone /\
   to_python_with orc (FDictT fid req kf vf) PNone = Ok (PDict (fid + 1)%N []).
 Proof. intros. repeat split. Qed.
+
+(* the hypotheses of basic_roundtrip are satisfiable: a typed dict of base64 bytes, a typed list of hex bytes *)
+Example basic_roundtrip_hyp_sat :
+  let f := FDictT 0 false (FStr false sopts0) (FListT 1 false (FBytes false BHex)) in
+  let v := PDict 1%N [(PStr (sa "k"), PList 2%N [PBytes (hx "00ff")])] in
+  normal no_oracle f v /\ rt_dom f v.
+Proof.
+  cbv zeta. split.
+  - unfold normal. cbn [sat]. right. eexists. split; [reflexivity|]. split; [|discriminate].
+    constructor; [|constructor]. cbn [fst snd]. split.
+    + right. exists (sa "k"). split; [reflexivity|]. split.
+      * repeat split; cbn; intros; try discriminate; try congruence.
+      * intros _. repeat split; auto.
+    + right. eexists. split; [reflexivity|]. split; [|discriminate]. constructor; [|constructor].
+      right. eexists. split; reflexivity.
+  - cbn [rt_dom]. eexists _, _. split; [reflexivity|]. split; [reflexivity|]. split.
+    + cbn. repeat split. constructor.
+    + constructor; [|constructor]. cbn [snd]. eexists _, _. split; [reflexivity|]. constructor; [exact I|constructor].
+Qed.
